@@ -522,6 +522,22 @@ def run(ctx):
         want = {"network": "testnet", "output_format": "bin"}
         okm = isinstance(got, dict) and got == want and not (ups[-1][4] or ups[-1][5])
         why = "with --network testnet and -0b given explicitly (everything else at its default) config.update receives %s, expected %s" % (tm.show(got)[:200], want)
+        # ... and the same for EVERY key Config.__init__ reads, one at a time (a list of "configurable" names kept beside
+        # the parser goes stale for one key: that key's explicit flag then loses against the configuration file)
+        for k in sorted(keys):
+            if not okm:
+                break
+            ns1 = {kk: "given_" + kk for kk in keys}
+            ns1.update({"subcommand": "key", "config_dir": P("config_dir", tm.STR), "in_file": P("in_file"), "out_file": P("out_file"),
+                        k + (suffix or "__explicit"): True})
+            evm.objects = {argterms[0]: ns1}
+            s3 = evm.run(fm2)
+            evm.objects = {}
+            ups = [c for c in s3.calls if c[0] in ("method:update", "bits.config.Config.update") and isinstance(c[2], dict)]
+            got = (rules.unfz(ups[-1][2]["**"]) if "**" in ups[-1][2] else dict(ups[-1][2])) if ups else None
+            want = {k: "given_" + k}
+            okm = isinstance(got, dict) and got == want and not (ups[-1][4] or ups[-1][5])
+            why = "with only %s given explicitly config.update receives %s, expected %s" % (k, tm.show(got)[:200], want)
     R.check("C20.2", "TABLE", fm, "main() re-applies exactly the options whose marker (the suffix ExplicitOption writes) is set, with their values", okm,
             "the explicit-option layer in main() is wrong: %s" % why, line=pos["update"][1].lineno, example="explicit flag vs. config file")
     bad_reads = []
